@@ -40,12 +40,13 @@ CHECKS["C04"] = dict(
     note=TB + " Host functions are assumed to raise only ValueError/TypeError.")
 
 CHECKS["C02"] = dict(
-    category="proof",
+    category="other",
     technique="finite-domain decision tables by kind-level abstract interpretation + path rule + exception-effect analysis of reducers and rule methods",
     text="Extracts the complete decision tables of logical_and/or/not/condition over {true,false,error,non-bool} from their bodies and compares every cell "
          "(and commutativity) with the table in the statement; proves by a path rule that ?: visits exactly the selected branch; proves with the effect "
          "engine that every all/exists fold uses a reducer that cannot raise, that the interpreter converts the logical functions' TypeError, and that no "
-         "rule method lets CELEvalError propagate as an exception. Complete for the logical functions (finite domain); plumbing by rules.",
+         "rule method lets CELEvalError propagate as an exception. Complete for the logical functions (finite domain); plumbing by rules. The conversion boundary of compiled operands "
+         "(result(), instances shared with C03.X2) has three open instances recorded as known findings with witness expressions.",
     design_ref="DESIGN.md section 4 C02",
     note=TB)
 
